@@ -266,12 +266,15 @@ def scannerErrorContext (text : Str) (lineno : Option Nat) (pos : Nat) :
     | none => throw .indexError
     | some l => pure (some (rstripCRLF l, colno))
 
+/-- lower bound of `text[command_start:…]`: `None` slices from the beginning -/
+def sliceStart : Option Nat → Int
+  | some k => k
+  | none => 0
+
 /-- `LowLevelParser.get_error_context((command_start, lineno, pos))` → `(context, colno)`. -/
 def lowLevelErrorContext (text : Str) (start : Option Nat) (pos : Nat) :
     Except RenderFail (Str × Int) :=
-  let s : Int := match start with
-    | some k => k
-    | none => 0        -- `text[None:pos]`
+  let s : Int := sliceStart start
   let before := pySlice text s pos
   let endPos : Nat :=
     if endsWithNL before then pos
